@@ -390,3 +390,109 @@ Proof.
   unfold bind.
   destruct (fn_merge_partitions_loop1 _ p1 p2 (1%nat, a, b) (1%nat, c, d) CharPartition_new) as [[q|[[t1 t2] q]]|]; reflexivity.
 Qed.
+
+(* ---- the iterators class_ids() and picks(): draining them yields the model's lists ---- *)
+Fixpoint drain_ids (fuel : nat) (it : ClassIdIterator) : option (list ClassId) :=
+  match fuel with
+  | O => None
+  | S f => match M_ClassIdIterator_next it with
+           | Some (it', Some c) => match drain_ids f it' with Some r => Some (c :: r) | None => None end
+           | Some (_, None) => Some []
+           | None => None
+           end
+  end.
+Fixpoint drain_picks (fuel : nat) (it : PickIterator) : option (list N) :=
+  match fuel with
+  | O => None
+  | S f => match M_PickIterator_next it with
+           | Some (it', Some c) => match drain_picks f it' with Some r => Some (c :: r) | None => None end
+           | Some (_, None) => Some []
+           | None => None
+           end
+  end.
+
+Lemma next_ids p k :
+  M_ClassIdIterator_next (ClassIdIterator_mk p k) =
+  Some (ClassIdIterator_mk p (k + 1),
+        if Nat.ltb k (plen (convp p)) then Some (ClassId_Interval k)
+        else if Nat.eqb k (plen (convp p)) && negb (pempty_complement (convp p)) then Some ClassId_Complement
+        else None).
+Proof.
+  unfold M_ClassIdIterator_next, ClassIdIterator_next.
+  cbn [ClassIdIterator_counter ClassIdIterator_partition]. rewrite !link_len. cbv [bind].
+  destruct (Nat.ltb k (plen (convp p))); [reflexivity|].
+  destruct (Nat.eqb k (plen (convp p))); cbn [andb]; [|reflexivity].
+  rewrite link_empty_complement. destruct (pempty_complement (convp p)); reflexivity.
+Qed.
+
+Lemma drain_ids_from p : forall d k fuel, (k + d = plen (convp p))%nat -> (d + 2 <= fuel)%nat ->
+  option_map (map convc) (drain_ids fuel (ClassIdIterator_mk p k)) =
+  Some (map CInt (seq k d) ++ (if pempty_complement (convp p) then [] else [CComp])).
+Proof.
+  induction d as [|d IH]; intros k fuel Hk Hf.
+  - destruct fuel as [|[|fuel]]; try lia. cbn [drain_ids]. rewrite next_ids.
+    assert (E1 : Nat.ltb k (plen (convp p)) = false) by (apply Nat.ltb_ge; lia).
+    assert (E2 : Nat.eqb k (plen (convp p)) = true) by (apply Nat.eqb_eq; lia).
+    rewrite E1, E2. cbn [andb seq map app].
+    destruct (pempty_complement (convp p)) eqn:Ec; cbn [negb]; [reflexivity|].
+    rewrite next_ids.
+    assert (E3 : Nat.ltb (k + 1) (plen (convp p)) = false) by (apply Nat.ltb_ge; lia).
+    assert (E4 : Nat.eqb (k + 1) (plen (convp p)) = false) by (apply Nat.eqb_neq; lia).
+    rewrite E3, E4. reflexivity.
+  - destruct fuel as [|fuel]; [lia|]. cbn [drain_ids]. rewrite next_ids.
+    assert (E1 : Nat.ltb k (plen (convp p)) = true) by (apply Nat.ltb_lt; lia). rewrite E1.
+    specialize (IH (k + 1)%nat fuel ltac:(lia) ltac:(lia)).
+    destruct (drain_ids fuel (ClassIdIterator_mk p (k + 1))) as [r|]; cbn [option_map] in IH |- *; [|discriminate IH].
+    injection IH as IH. cbn [seq map app convc]. rewrite IH. replace (k + 1)%nat with (S k) by lia. reflexivity.
+Qed.
+
+Lemma link_class_ids p fuel : (plen (convp p) + 2 <= fuel)%nat ->
+  option_map (map convc) (drain_ids fuel (CharPartition_class_ids p)) = Some (pclass_ids (convp p)).
+Proof. intros Hf. unfold CharPartition_class_ids, pclass_ids. apply drain_ids_from; lia. Qed.
+
+Lemma next_picks p k :
+  M_PickIterator_next (PickIterator_mk p k) =
+  if Nat.ltb k (plen (convp p)) then
+    option_map (fun x => (PickIterator_mk p (k + 1), Some x)) (ppick_iv (convp p) k)
+  else Some (PickIterator_mk p (k + 1),
+             if Nat.eqb k (plen (convp p)) && negb (pempty_complement (convp p)) then Some (wit (convp p)) else None).
+Proof.
+  unfold M_PickIterator_next, PickIterator_next.
+  cbn [PickIterator_counter PickIterator_partition]. rewrite !link_len. cbv [bind].
+  destruct (Nat.ltb k (plen (convp p))).
+  - rewrite link_pick. destruct (ppick_iv (convp p) k); reflexivity.
+  - destruct (Nat.eqb k (plen (convp p))); cbn [andb]; [|reflexivity].
+    rewrite link_empty_complement. destruct (pempty_complement (convp p)); cbn [negb]; [reflexivity|].
+    rewrite link_pick_complement. reflexivity.
+Qed.
+
+Lemma drain_picks_from p : forall d k fuel, (k + d = plen (convp p))%nat -> (d + 2 <= fuel)%nat ->
+  drain_picks fuel (PickIterator_mk p k) =
+  Some (map fst (skipn k (ivs (convp p))) ++ (if pempty_complement (convp p) then [] else [wit (convp p)])).
+Proof.
+  induction d as [|d IH]; intros k fuel Hk Hf.
+  - destruct fuel as [|[|fuel]]; try lia. cbn [drain_picks]. rewrite next_picks.
+    assert (E1 : Nat.ltb k (plen (convp p)) = false) by (apply Nat.ltb_ge; lia).
+    assert (E2 : Nat.eqb k (plen (convp p)) = true) by (apply Nat.eqb_eq; lia).
+    rewrite E1, E2. cbn [andb].
+    rewrite (skipn_all2 (ivs (convp p))) by (unfold plen in Hk; lia). cbn [map app].
+    destruct (pempty_complement (convp p)) eqn:Ec; cbn [negb]; [reflexivity|].
+    rewrite next_picks.
+    assert (E3 : Nat.ltb (k + 1) (plen (convp p)) = false) by (apply Nat.ltb_ge; lia).
+    assert (E4 : Nat.eqb (k + 1) (plen (convp p)) = false) by (apply Nat.eqb_neq; lia).
+    rewrite E3, E4. reflexivity.
+  - destruct fuel as [|fuel]; [lia|]. cbn [drain_picks]. rewrite next_picks.
+    assert (E1 : Nat.ltb k (plen (convp p)) = true) by (apply Nat.ltb_lt; lia). rewrite E1.
+    unfold ppick_iv. destruct (nth_error (ivs (convp p)) k) as [c|] eqn:En;
+      [|apply nth_error_None in En; unfold plen in Hk; lia].
+    cbn [option_map]. rewrite (IH (k + 1)%nat fuel ltac:(lia) ltac:(lia)).
+    assert (Esk : skipn k (ivs (convp p)) = c :: skipn (k + 1) (ivs (convp p))).
+    { clear -En. revert k En. induction (ivs (convp p)) as [|y l IHl]; intros [|k] En; cbn in *; try discriminate.
+      - congruence.
+      - apply IHl. exact En. }
+    rewrite Esk. reflexivity.
+Qed.
+
+Lemma link_picks p fuel : (plen (convp p) + 2 <= fuel)%nat ->
+  drain_picks fuel (CharPartition_picks p) = Some (ppicks (convp p)).
+Proof. intros Hf. unfold CharPartition_picks, ppicks. rewrite (drain_picks_from p (plen (convp p)) 0 fuel); [reflexivity | lia | lia]. Qed.
